@@ -221,13 +221,14 @@ impl ScriptedDriver for Driver {
     } else {
       let a = self.script.actions[self.next_action].clone();
       self.next_action += 1;
+      // a stalled poll (stopped process, suspend, slow device): whatever it reports, it reports late
+      if let Some((idx, ms)) = self.script.stall {
+        if idx == self.next_action - 1 {
+          std::thread::sleep(Duration::from_millis(ms));
+        }
+      }
       match a {
         Action::TimedOut => {
-          if let Some((idx, ms)) = self.script.stall {
-            if idx == self.next_action - 1 {
-              std::thread::sleep(Duration::from_millis(ms));
-            }
-          }
           if self.script.real_sleep {
             if let Some(t) = timeout {
               std::thread::sleep(t.min(Duration::from_millis(20)));
@@ -349,12 +350,14 @@ pub struct SchedOpts {
 pub fn gen_script(src: &mut Src, kb_events: Vec<Event>, o: &SchedOpts, real_sleep: bool) -> Script {
   let mut actions = Vec::new();
   let mut remaining = kb_events.len();
+  // an interruption is allowed whenever a device event has been reported since the last one
+  // (two in a row without one make the real loop sleep for seconds: the slow slices do that)
   let mut interrupted = false;
   let mut guard = 0;
   while remaining > 0 && guard < 400 {
     guard += 1;
-    let w_arrive = 100 - o.timeout_percent - if o.allow_interrupt && !interrupted { 3 } else { 0 };
-    let kind = src.weighted(&[w_arrive, o.timeout_percent, if o.allow_interrupt && !interrupted { 3 } else { 0 }]);
+    let w_arrive = 100 - o.timeout_percent - if o.allow_interrupt && !interrupted { 4 } else { 0 };
+    let kind = src.weighted(&[w_arrive, o.timeout_percent, if o.allow_interrupt && !interrupted { 4 } else { 0 }]);
     match kind {
       0 => {
         let mut kb = match src.weighted(&[8, 38, 20, 11, 7, 5, 5, 6]) {
@@ -379,6 +382,9 @@ pub fn gen_script(src: &mut Src, kb_events: Vec<Event>, o: &SchedOpts, real_slee
         }
         let tablet_first = src.chance(50);
         let spurious_kb = kb == 0 && src.chance(30);
+        if kb > 0 || !tablet.is_empty() || spurious_kb {
+          interrupted = false;
+        }
         actions.push(Action::Arrive { kb, tablet, tablet_first, mid, spurious_kb });
       }
       1 => {
